@@ -48,6 +48,11 @@ checks.update({
          "The attachment server's default FileEventer runs against simfs (in-memory tree with Linux path resolution), pre-populated with files and directories outside the terminals' directories; names with .., absolute paths, separators, NUL, names of existing outside files, several terminals per run, closes at arbitrary points; every create/write/mkdir the server performs is recorded with its resolved absolute path and must lie inside <cwd>/<phone>/ (or be the server's own file.log); outside files must be unchanged.",
          "simfs has no symlinks; phone numbers are non-empty"),
 })
+checks.update({
+ "C10": ("fault_enumeration", "5/C10", "deterministic simulation of both servers: seeded hostile byte streams / adversarial frames / lifecycle faults next to well-behaved sessions, plus single-fault enumeration (FIN/RST of the hostile connection at every step of FIFO baselines); oracles = no panic anywhere, well-behaved sessions' own oracles, fresh connections served",
+         "JT808 server and attachment server run together; 1-3 well-behaved sessions carry their full reply oracles while 1-3 hostile connections send random bytes, bit-flipped/truncated/extended frames, valid frames with adversarial header and body fields for every supported ID (counts exceeding items, impossible package numbers, names filling the body, adversarial data-packet names/offsets/lengths), with commands outstanding so malformed responses reach the writer's parsers, with default and parse-everything handlers and the default file handler, closing or resetting at arbitrary points. Any recovered panic is a violation; afterwards a fresh connection to each server must be served. Enumeration: for each baseline every scheduler step once with FIN and once with RST on the hostile connection.",
+         "a panic is recorded by the goroutine wrapper instead of killing the process (in production it would); hostile streams are sampled"),
+})
 pending = {}
 all_ids = ["C%02d" % i for i in range(1, 21)]
 man = {
